@@ -97,8 +97,11 @@ impl MV {
                 Value::Map(Map { map: Arc::new(m) })
             }
             MV::Duration(s, n) => {
-                Value::Duration(chrono::Duration::new(*s, *n as u32).expect("duration in range")
-                    )
+                // accept both the floor representation and chrono's (seconds, signed sub-second) pair
+                let total = *s as i128 * 1_000_000_000 + *n as i128;
+                let secs = total.div_euclid(1_000_000_000) as i64;
+                let nanos = total.rem_euclid(1_000_000_000) as u32;
+                Value::Duration(chrono::Duration::new(secs, nanos).expect("duration in range"))
             }
             MV::Timestamp(s, n, off) => {
                 let utc = chrono::DateTime::from_timestamp(*s, *n).expect("ts in range");
